@@ -38,14 +38,20 @@ def register(reg):
             _stream_transport_map_lock='ref:rlock', _reader_lock='ref:lock', _open_lock='ref:lock', _last_id_used='int',
             systemtype='str', serial='str', banner='str')
   reg.shape('AdbStream', _destination='str', _transport='ref:AdbStreamTransport')
-  reg.shape('queue', items='own:list')
+  reg.shape('queue', items='own:list', head='int')
   meta = {
       'not_decided': ['everything quantified over thread schedules (no deadlock, no lost wake-up, blocked reads returning by their timeout): '
-                      'AdbConnection.read_for_stream and AdbStreamTransport._read_messages_until_true are not under contract',
+                      'AdbStreamTransport._read_messages_until_true is not under contract; AdbConnection.read_for_stream is verified for one '
+                      'caller at a time (what a call does to the stream queue, the wire and the reader lock), not for interleavings of callers',
                       'local id allocation (_make_stream_transport: itertools.islice / chain over two ranges) is outside the subset'],
       'bounded': [],
       'assumptions': ['transport.write_message / read_message follow their C13 contracts; every message written is appended to the ghost log tx.*',
-                      'queue.Queue.put appends to the queue (ghost list); AdbMessage.command is the inverse of the wire table'],
+                      'queue.Queue.put appends to the queue (ghost list items), get / get_nowait return items[head] and advance head, Empty iff '
+                      'head == len(items) (sequential view of queue.Queue; the 10 ms blocking of get(True, .01) is not modelled); '
+                      'AdbMessage.command is the inverse of the wire table',
+                      'callers of transport.read_message see an abstraction of its C13 contract: a fresh message with a known command, 32-bit '
+                      'arguments, intact payload',
+                      'the device never sends READY (OKAY) with remote id 0 (protocol.txt); a PolledTimeout that has expired stays expired'],
   }
   reg.prop_meta['C14'] = meta
   reg.prop_meta['C15'] = meta
@@ -93,12 +99,22 @@ def register(reg):
   register_stream(reg)
   register_connect(reg)
   register_handshake(reg)
+  register_reader(reg)
 
 
 VALID_MSG = ("({k})".format(k=' or '.join("message._command == wire_command('%s')" % n for n in NAMES)) +
              ' and 0 <= message.arg0 and message.arg0 < 2**32 and 0 <= message.arg1 and message.arg1 < 2**32')
+# protocol.txt: "READY(local-id, remote-id) ... the local-id may not be zero" - the sender's local id is our remote id.  Environment
+# assumption on the device, stated at the one place packets enter (the caller view of read_message); without it a second
+# READY(0) trips the `assert` in _set_or_check_remote_id (AssertionError, see DESIGN.md 12.8)
+NONZERO_READY = "implies(message._command == wire_command('OKAY'), message.arg0 != 0)"
 IDS = ('0 < self.local_id and self.local_id < 2**16 and (self.remote_id is None or (0 <= self.remote_id and self.remote_id < 2**32)) and '
        '0 <= self.adb_connection.maxdata and self.adb_connection.maxdata < 2**32')
+
+
+WF_MAP = ('forall_key(lambda k: implies(k in {m}, {m}[k].local_id == k and {m}[k].adb_connection is self and 0 < k and k < 2**16 and '
+          '({m}[k].remote_id is None or (0 <= {m}[k].remote_id and {m}[k].remote_id < 2**32)) and '
+          'implies(not {m}[k].remote_id, {m}[k].closed_state is {cs}.PENDING)))').format(m='self._stream_transport_map', cs=CS)
 
 
 def register_stream_transport(reg):
@@ -155,12 +171,14 @@ def register_stream_transport(reg):
   c.requires('stream_message', "message.command == 'OKAY' or message.command == 'CLSE' or message.command == 'WRTE'")
   c.requires('valid_message', VALID_MSG).requires('ids', IDS)
   c.requires('a_stream_without_remote_id_is_pending', 'implies(not self.remote_id, self.closed_state is %s.PENDING)' % CS)
+  c.requires('a_READY_packet_names_a_non_zero_remote_id', NONZERO_READY)
   q = 'self.message_queue.items'
   c.ensures('queued_exactly_once_at_the_end', 'len({q}) == old(len({q})) + 1 and {q}[len({q}) - 1] is message and '
             'forall_int(lambda j: implies(0 <= j and j < old(len({q})), same({q}[j], old(content({q}))[j])))'.format(q=q))
   c.ensures('a_WRTE_is_acknowledged_by_exactly_one_OKAY_with_this_streams_ids',
             "implies(message.command == 'WRTE', ghost('tx.n') == %s + 1 and %s)" % (N0, sent(N0, 'OKAY', 'self.local_id', 'self.remote_id')))
   c.ensures('nothing_else_is_sent', "implies(message.command != 'WRTE', ghost('tx.n') == %s)" % N0)
+  c.ensures('ids_stay_well_formed', IDS + ' and implies(not self.remote_id, self.closed_state is %s.PENDING)' % CS)
   c.raises('AdbProtocolError', when="message.command == 'OKAY' or message.command == 'WRTE'", ensures=[('nothing_queued', 'len(%s) == old(len(%s))' % (q, q))])
   c.raises('UsbWriteFailedError').raises('AdbTimeoutError')
   c.modifies('self.remote_id', 'self.closed_state', 'list(%s)' % q)
@@ -212,6 +230,7 @@ def register_connection(reg):
              '({m}[k].remote_id is None or (0 <= {m}[k].remote_id and {m}[k].remote_id < 2**32)) and '
              'implies(not {m}[k].remote_id, {m}[k].closed_state is {cs}.PENDING)))'.format(m=smap, cs=CS))
   c.requires('this_stream_belongs_to_this_connection', 'stream_transport.adb_connection is self')
+  c.requires('a_READY_packet_names_a_non_zero_remote_id', NONZERO_READY)
   illegal = "not (message.command == 'OKAY' or message.command == 'CLSE' or message.command == 'WRTE')"
   mine = 'message.arg1 == stream_transport.local_id'
   c.raises('AdbProtocolError', when="(%s) or (%s and message.command == 'WRTE' and not stream_transport.remote_id) or "
@@ -228,6 +247,13 @@ def register_connection(reg):
             "implies(not (%s) and old(message.arg1 in %s) and message.command == 'WRTE', ghost('tx.n') == %s + 1 and %s)"
             % (mine, smap, N0, sent(N0, 'OKAY', 'old(%s).local_id' % other, 'old(%s).remote_id' % other)))
   c.ensures('a_message_for_an_unknown_id_is_dropped', "implies(not (%s) and not old(message.arg1 in %s), ghost('tx.n') == %s)" % (mine, smap, N0))
+  c.ensures('the_waiting_stream_keeps_its_ids', st_ids('stream_transport'))
+  c.ensures('registered_streams_stay_well_formed', WF_MAP)
+  c.ensures('the_message_log_only_grows', "ghost('tx.n') >= %s" % N0)
+  c.ensures('nothing_is_removed_from_the_waiting_streams_queue',
+            'len(stream_transport.message_queue.items) >= old(len(stream_transport.message_queue.items)) and '
+            'forall_int(lambda j: implies(0 <= j and j < old(len(stream_transport.message_queue.items)), '
+            'same(stream_transport.message_queue.items[j], old(content(stream_transport.message_queue.items))[j])))')
   c.modifies('dict(%s)' % smap, 'AdbStreamTransport.remote_id', 'AdbStreamTransport.closed_state', 'list')
 
 
@@ -381,6 +407,87 @@ def register_handshake(reg):
                "msg.arg0 == ghost('rx.arg0')[ghost('rx.cursor') - 1] and msg.arg1 == ghost('rx.arg1')[ghost('rx.cursor') - 1] and "
                "msg.data == ghost('rx.data')[ghost('rx.cursor') - 1] and len(msg.data) < 2**31")],
          modifies=[], vars={'msg': 'ref:AdbMessage'})
+
+
+def register_reader(reg):
+  """AdbConnection.read_for_stream: the sequential rules of the reader hand-over (what one call may do to the stream's queue,
+  to the wire and to the reader lock).  The queue is the ghost pair (items, head): put appends to items, get returns items[head]
+  and advances head, Empty iff head == len(items)."""
+  from pyvc.state import Obligation
+
+  def q_get(ex, st, args, kwargs):
+    ex.ctx.use_trusted('queue.Queue.get')
+    q = args[0]
+    items = ex.read_field(st, q, 'items')
+    head = ex.read_field(st, q, 'head')
+    n = ex.list_len(st, items)
+    out = []
+    got = st.fork()
+    got.assume(head.t < n)
+    v = ex.list_get(got, items, head.t)
+    ex.write_field(got, q, 'head', VInt(head.t + 1))
+    out.append((got, v))
+    st.assume(head.t >= n)
+    out.append((st, ex.raise_builtin(st, 'queue.Empty', '')))
+    return out
+  reg.trusted_methods[('queue', 'get')] = q_get
+  reg.trusted_methods[('queue', 'get_nowait')] = q_get
+
+  # caller-facing view of transport.read_message: an abstraction of its (verified, C13) contract - a fresh, intact message
+  rm = [c for c in reg.contracts if c.name == 'AdbTransportAdapter.read_message'][0]
+  for qual in ('AdbTransportAdapter.read_message', 'DebugAdbTransportAdapter.read_message'):
+    c = reg.contract(A, qual, props=(), name=qual + '[caller view]')
+    c.param('timeout', 'ref:PolledTimeout').returns('ref:AdbMessage')
+    c.ensures('a_fresh_intact_message', 'is_fresh(result) and ' + VALID_MSG.replace('message.', 'result.') + ' and len(result.data) < 2**31')
+    c.ensures('a_READY_packet_names_a_non_zero_remote_id', NONZERO_READY.replace('message.', 'result.'))
+    c.raises('UsbReadFailedError').raises('AdbProtocolError').raises('AdbDataIntegrityError').raises('AdbTimeoutError')
+    c.modifies()
+    c.trusted('abstraction of the C13 contract of read_message (verified there): the message has a known command, 32-bit arguments and an intact '
+              'payload; the device script is not exposed to callers')
+
+    def under_reader_lock(ex, st, env, result):
+      if '$need_reader_lock' in st.ghost:
+        held = any('_reader_lock' in l for l in st.locks)
+        ex.ctx.obligations.append(Obligation('%s/lock.wire_frames_are_read_only_by_the_holder_of_the_reader_lock' % ex.ctx.unit, 'lock', list(st.pc),
+                                             z3.BoolVal(held), '', {'msg': 'transport.read_message called without AdbConnection._reader_lock'}))
+    c.hooks['after_call'] = under_reader_lock
+
+  smap = 'self._stream_transport_map'
+  q = 'stream_transport.message_queue'
+  c = reg.contract(P, 'AdbConnection.read_for_stream', props=['C14'])
+  tx(c)
+  c.ghost('$need_reader_lock', 'int')
+  c.param('stream_transport', 'ref:AdbStreamTransport').param('timeout_ms', 'val{none,int,float}').returns('ref:AdbMessage')
+  st_ids = ('0 < {s}.local_id and {s}.local_id < 2**16 and ({s}.remote_id is None or (0 <= {s}.remote_id and {s}.remote_id < 2**32))').format(s='stream_transport')
+  ids = st_ids + ' and 0 <= self.maxdata and self.maxdata < 2**32'
+  qwf = '0 <= {q}.head and {q}.head <= len({q}.items)'.format(q=q)
+  belongs = 'stream_transport.adb_connection is self'
+  c.requires('ids', ids).requires('queue', qwf).requires('registered_streams_are_well_formed', WF_MAP).requires('this_stream_belongs_to_this_connection', belongs)
+  nonempty0 = 'old({q}.head < len({q}.items))'.format(q=q)
+  c.ensures('queued_messages_are_delivered_first_and_in_order',
+            'implies({ne}, result is old(content({q}.items))[old({q}.head)] and {q}.head == old({q}.head) + 1)'.format(ne=nonempty0, q=q))
+  c.ensures('at_most_one_message_is_taken_from_the_queue', '{q}.head == old({q}.head) or {q}.head == old({q}.head) + 1'.format(q=q))
+  c.ensures('a_message_not_taken_from_the_queue_was_read_for_this_stream',
+            "implies({q}.head == old({q}.head), result.arg1 == stream_transport.local_id and "
+            "(result.command == 'OKAY' or result.command == 'CLSE' or result.command == 'WRTE'))".format(q=q))
+  c.ensures('queue', qwf)
+  c.raises('AdbStreamClosedError', when='stream_transport.local_id not in %s' % smap,
+           ensures=[('a_closed_stream_still_delivers_what_was_queued_for_it', '{q}.head == len({q}.items)'.format(q=q)),
+                    ('nothing_taken', '{q}.head == old({q}.head)'.format(q=q))])
+  c.raises('AdbTimeoutError', ensures=[('nothing_taken_from_the_queue', '{q}.head == old({q}.head)'.format(q=q))])
+  c.raises('AdbProtocolError', ensures=[('nothing_taken_from_the_queue', '{q}.head == old({q}.head)'.format(q=q))])
+  c.raises('UsbReadFailedError').raises('UsbWriteFailedError').raises('AdbDataIntegrityError')
+  mods = ['dict(%s)' % smap, 'AdbStreamTransport.remote_id', 'AdbStreamTransport.closed_state', 'list', 'queue.head']
+  c.modifies(*mods)
+  inv = [('ids', ids), ('queue', qwf), ('registered_streams_are_well_formed', WF_MAP), ('this_stream_belongs_to_this_connection', belongs),
+         ('nothing_taken_so_far', '{q}.head == old({q}.head)'.format(q=q)),
+         ('what_was_queued_stays_queued', 'len({q}.items) >= old(len({q}.items)) and forall_int(lambda j: implies(0 <= j and j < old(len({q}.items)), '
+          'same({q}.items[j], old(content({q}.items))[j])))'.format(q=q)),
+         ('message_log', "ghost('tx.n') >= 0")]
+  c.loop('while not timeout.has_expired() and stream_transport.local_id in self._stream_transport_map', inv=inv, modifies=mods,
+         vars={'timeout': 'ref:PolledTimeout'})
+  c.loop('while not timeout.has_expired()', inv=inv, modifies=mods,
+         vars={'timeout': 'ref:PolledTimeout'})
 
 
 def replay_close_stream_transport(model, ob):
